@@ -8,6 +8,32 @@ PY = "/venv/bin/python"
 
 CLAIMS = {
     # id: (technique, text, note, design_ref)
+    "C01": (
+        "def-use/dependence analysis of selection loops, value-flow of picks, path-sensitive definite assignment, structural rules on the validator",
+        "Decides necessary structural clauses for all 30 exported pool strategies and their helpers: the batch size every query uses is the clipped "
+        "value returned by the validator (and the validator clips); arrays scattered through the candidate mapping are NaN-filled (only candidates carry numbers); "
+        "in each of the 15 sequential selection loops the operand of the selection depends on earlier picks (loop-carried) and the masked picks are the returned picks; "
+        "no local is read unbound on any feasible (branch-correlated) path; multi-element index draws are without replacement. "
+        "Not decided: that custom loops fill all slots, numerical termination, dtype of the result.",
+        "Dependence is flow-insensitive within a loop body (necessary condition); 6 infeasible definite-assignment residuals are listed one symbol at a time in the checker.",
+        "DESIGN.md section 3 C01",
+    ),
+    "C02": (
+        "statement-order (structural dominance) and dependence analysis of selection loops; NaN-discipline of scatter targets",
+        "Decides: in every selection loop the NaN mask of the current pick is applied only after the returned row was snapshotted (or to an array that is not returned); "
+        "a mask of earlier picks on the returned row is matched by an exclusion in the operand the selection reads; utilities scattered through the mapping are NaN elsewhere. "
+        "The numerical arg-max relation and positivity of sampling mass are not decided.",
+        "Structured control flow only; the arg-max relation is the contract of rand_argmax (C18).",
+        "DESIGN.md section 3 C02",
+    ),
+    "C18": (
+        "sibling-implementation diff and structural rules on the three selection primitives",
+        "Decides: rand_argmax/rand_argmin are identical up to nanmax<->nanmin and break ties by argmax of noise times the equality mask with the NaN-aware optimum; "
+        "simple_batch clips to the number of non-NaN entries before both modes, snapshots the row before masking the winner, masks depend on earlier picks; "
+        "proportional mode zeroes NaN probabilities, draws without replacement and masks earlier picks per row. Tie fairness and optimality as numbers are not decided.",
+        "numpy's nanmax/nanmin/argmax semantics are trusted.",
+        "DESIGN.md section 3 C18",
+    ),
     "C03": (
         "interprocedural effect analysis (abstract interpretation over the AST) + structural dominance of save/restore pairs",
         "Decides the purity clause: every write to state reachable from self on every path of query/query_by_utility "
